@@ -97,7 +97,13 @@ def setup():
     sh("git -C /repo worktree prune")
     r = sh(f"git -C /repo worktree add -q --detach {REPO} HEAD")
     assert r.returncode == 0, r.stdout
-    shutil.copytree("/verif/sim", SIM, ignore=shutil.ignore_patterns("target"))
+    rev = sys.argv[sys.argv.index("--rev") + 1] if "--rev" in sys.argv else None
+    if rev:
+        # measure with the simulator as it was at an earlier commit of /verif ("before" column of the catches table)
+        r = sh(f"git -C /verif archive {rev} sim | tar -x -C {BASE}")
+        assert r.returncode == 0, r.stdout
+    else:
+        shutil.copytree("/verif/sim", SIM, ignore=shutil.ignore_patterns("target"))
     t = open(SIM + "/Cargo.toml").read().replace('path = "/repo"', f'path = "{REPO}"')
     open(SIM + "/Cargo.toml", "w").write(t)
     c = open(SIM + "/.cargo/config.toml").read().replace("/verif/target", TARGET)
@@ -169,6 +175,8 @@ def main():
             print(name, "caught by", entry["caught_by"], {c: v.get("classes") if isinstance(v, dict) else v for c, v in entry["checks"].items()}, flush=True)
         os.makedirs("/verif/sensitivity", exist_ok=True)
         tag = "seeded" if "--seeded" in sys.argv else "own"
+        if "--rev" in sys.argv:
+            tag += "-at-" + sys.argv[sys.argv.index("--rev") + 1][:7]
         path = f"/verif/sensitivity/results-{tag}.json"
         if only and os.path.exists(path):
             old = [e for e in json.load(open(path)) if e["name"] not in [r["name"] for r in results]]
